@@ -101,15 +101,17 @@ func ruleTreeUnlinkMark(c *Ctx, r *R) {
 	}
 	// the node whose keys are copied out
 	var src ssa.Value
-	instrs(fn, func(b *ssa.BasicBlock, i int, in ssa.Instruction) {
-		if call, ok := in.(*ssa.Call); ok {
+	// (the copying may sit in a method of the surviving node: left.absorb(sepKey, sepValue, right) - the node is then the
+	// argument that stands for the parameter copied out of)
+	for _, d := range deepInstrs(fn, 2) {
+		if call, ok := d.in.(*ssa.Call); ok {
 			if bi, ok := call.Call.Value.(*ssa.Builtin); ok && bi.Name() == "copy" {
 				if nd, arr, ok := nodeArray(call.Call.Args[1]); ok && arr == "keys" {
-					src = nd
+					src = argOf(resolveVal(nd), d.calls)
 				}
 			}
 		}
-	})
+	}
 	if src == nil {
 		r.violated("tree.btree.mergeTwo|merged-away-node", fn.Pos(), "cannot find the node whose keys are copied into its sibling")
 		return
